@@ -169,6 +169,15 @@ def run_case(case, ctx):
         return
 
     # ---- CP-PLSR ---------------------------------------------------------------------------------------------
+    if rs.rand() < 0.06 and dt == "float64":
+        # one long non-sample mode (spectra, time series): "large problem" shortcuts start here
+        fshape = [int(rs.randint(501, 700))] + [int(rs.randint(2, 13))]      # the other mode: shorter or longer than a sketch is wide
+        if rs.rand() < 0.5:
+            fshape = fshape[::-1]
+        n = int(rs.randint(6, 14))
+        X = gen.arr(rs, [n] + fshape, dt, "gauss")
+        Xnew = gen.arr(rs, [2] + fshape, dt, "gauss")
+        ctx.count("plsr_long_mode")
     ny = int(rs.randint(1, 4))
     vecY = bool(ny == 1 and rs.rand() < 0.5)
     # targets correlated with X so that the latent components are well separated
@@ -190,8 +199,14 @@ def run_case(case, ctx):
         desc["units"] = [ux, uy]
         ctx.count("plsr_other_units")
 
+    # the stopping tolerance: tight, or the estimator's default (the same for every fit of the case)
+    tol_kw = {"tol": 1e-12 if dt == "float64" else 1e-6}
+    if dt == "float64" and rs.rand() < 0.4:
+        tol_kw = {}
+        desc["tol"] = "default"
+
     def fit(Xa, Ya):
-        m = CP_PLSR(n_components=ncomp, tol=1e-12 if dt == "float64" else 1e-6, n_iter_max=300, random_state=seed)
+        m = CP_PLSR(n_components=ncomp, n_iter_max=300, random_state=seed, **tol_kw)
         m.fit(Xa.copy(), Ya.copy())
         return m
 
@@ -248,8 +263,13 @@ def run_case(case, ctx):
     P0 = ref.hp(m.predict(X.copy()))
     # constant shifts
     ctx.count("clause/plsr-shift-invariance")
-    cX = (rs.standard_normal(fshape) * 3).astype(dt)
-    cY = (rs.standard_normal(np.shape(Y)[1:]) * 3).astype(dt)
+    # ... of ordinary size, or large compared with the spread of the data (temperatures in mK, dates as day counts)
+    big_x = float(gen.choice(rs, [3.0, 3.0, 1e3])) if dt == "float64" else 3.0
+    big_y = float(gen.choice(rs, [3.0, 3.0, 1e4, 1e6])) if dt == "float64" else float(gen.choice(rs, [3.0, 30.0]))
+    desc["shift_sizes"] = [big_x, big_y]
+    ctx.count("plsr_shift_size/%g" % big_y)
+    cX = (rs.standard_normal(fshape) * big_x * float(np.max(np.abs(X)) / 3 + 1e-300 if "units" in desc else 1.0)).astype(dt)
+    cY = (rs.standard_normal(np.shape(Y)[1:]) * big_y * float(np.max(np.abs(Y)) / 3 + 1e-300 if "units" in desc else 1.0)).astype(dt)
     m2 = fit((X + cX).astype(dt), (Y + cY).astype(dt))
     P2 = ref.hp(m2.predict((X + cX).astype(dt))) - ref.hp(cY)
     sc_p = np.max(np.abs(P0)) + 1e-300
